@@ -11,8 +11,41 @@ from vlib.stimtext import Instr, T
 REPS = [1, 2, 3, 4, 5, 6, 7, 8, 9, 10, 11, 12, 13, 19, 20, 21, 33, 64, 100, 257]
 
 
+def transient_case(rng):
+    """loops whose first iteration(s) differ from the steady state, followed by feedback that looks back several iterations"""
+    n = rng.choice([2, 3])
+    q = 0
+    t = 1
+    pre = []
+    if rng.random() < 0.5:
+        pre.append(Instr('X', [], [T('q', q)]))
+    body = []
+    form = rng.choice(['m_r_x', 'mr_x', 'm_only_x', 'swapchain'])
+    if form == 'm_r_x':
+        body = [Instr('M', [], [T('q', q)]), Instr('R', [], [T('q', q)]), Instr('X', [], [T('q', q)])]
+    elif form == 'mr_x':
+        body = [Instr('MR', [], [T('q', q)]), Instr('X', [], [T('q', q)])]
+    elif form == 'm_only_x':
+        body = [Instr('X', [], [T('q', q)]), Instr('M', [], [T('q', q)])]
+    else:
+        # a bit travelling down a chain: transient of length n
+        pre.append(Instr('X', [], [T('q', 0)]))
+        body = [Instr('SWAP', [], [T('q', k), T('q', k + 1)]) for k in range(n - 1)] + [Instr('MR', [], [T('q', n - 1)])]
+        if rng.random() < 0.5:
+            body.append(Instr('X', [], [T('q', 0)]))
+    if rng.random() < 0.3:
+        body.append(Instr('DETECTOR', [], [T('rec', 1)]))
+    reps = rng.choice([3, 9, 10, 11, 12, 20, 33, 100])
+    suffix = [Instr(rng.choice(['CX', 'CY']), [], [T('rec', rng.randint(1, min(6, reps))), T('q', t)]), Instr('M', [], [T('q', t)])]
+    if rng.random() < 0.5:
+        suffix.append(Instr('DETECTOR', [], [T('rec', 1)]))
+    return pre + [Instr('REPEAT', body=body, reps=reps)] + suffix
+
+
 def loop_case(rng, gates, names):
     """prefix ; REPEAT r { body with MR/M, detectors across iterations, feedback, SHIFT_COORDS } ; suffix with detectors"""
+    if rng.random() < 0.2:
+        return transient_case(rng)
     n = rng.choice([1, 2, 3, 4])
     u1, u2 = gencirc.gate_pools(gates)
     prof = gencirc.Profile(repeat=False, feedback=False, spp=False, mpp=False, pair_meas=False, resets=False, len_range=(0, 4))
